@@ -44,74 +44,101 @@ macro_rules! wk_kind {
     (di) => {
         const DIRECTED: bool = true;
         fn lists_of(n: &N) -> (Vec<Entry>, Vec<Entry>) {
-            (n.iter_out().map(|Edge(_, v, e)| (v.key().id, e)).collect(), n.iter_in().map(|Edge(u, _, e)| (u.key().id, e)).collect())
+            (n.iter_out().map(|Edge(_, v, e)| (ku(v.key()), eu(&e))).collect(), n.iter_in().map(|Edge(u, _, e)| (ku(u.key()), eu(&e))).collect())
         }
         fn obs(n: &N) -> String {
             format!("od={} id={} root={} leaf={} orphan={}", n.out_degree(), n.in_degree(), b(n.is_root()), b(n.is_leaf()), b(n.is_orphan()))
         }
         fn views(g: &G, which: &str) -> Vec<usize> {
             match which {
-                "g.roots" => g.roots().iter().map(|n| n.key().id).collect(),
-                "g.leaves" => g.leaves().iter().map(|n| n.key().id).collect(),
-                _ => g.orphans().iter().map(|n| n.key().id).collect(),
+                "g.roots" => g.roots().iter().map(|n| ku(n.key())).collect(),
+                "g.leaves" => g.leaves().iter().map(|n| ku(n.key())).collect(),
+                _ => g.orphans().iter().map(|n| ku(n.key())).collect(),
             }
         }
         fn scc_of(g: &G) -> Option<Vec<Vec<usize>>> {
-            Some(g.scc().iter().map(|c| c.iter().map(|n| n.key().id).collect()).collect())
+            Some(g.scc().iter().map(|c| c.iter().map(|n| ku(n.key())).collect()).collect())
         }
         fn q(n: &N, v: usize) -> String {
-            let k = WKey::new(v);
-            let fo = n.find_outbound(&k).map(|x| x.key().id);
-            let fi = n.find_inbound(&k).map(|x| x.key().id);
+            let k = kk(v);
+            let fo = n.find_outbound(&k).map(|x| ku(x.key()));
+            let fi = n.find_inbound(&k).map(|x| ku(x.key()));
             format!("conn={} fo={:?} fi={:?}", b(n.is_connected(&k)), fo, fi)
         }
     };
     (un) => {
         const DIRECTED: bool = false;
         fn lists_of(n: &N) -> (Vec<Entry>, Vec<Entry>) {
-            (n.iter().map(|Edge(_, v, e)| (v.key().id, e)).collect(), vec![])
+            (n.iter().map(|Edge(_, v, e)| (ku(v.key()), eu(&e))).collect(), vec![])
         }
         fn obs(n: &N) -> String {
             format!("deg={} orphan={}", n.degree(), b(n.is_orphan()))
         }
         fn views(g: &G, _which: &str) -> Vec<usize> {
-            g.orphans().iter().map(|n| n.key().id).collect()
+            g.orphans().iter().map(|n| ku(n.key())).collect()
         }
         fn scc_of(_g: &G) -> Option<Vec<Vec<usize>>> {
             None
         }
         fn q(n: &N, v: usize) -> String {
-            let k = WKey::new(v);
-            let fa = n.find_adjacent(&k).map(|x| x.key().id);
+            let k = kk(v);
+            let fa = n.find_adjacent(&k).map(|x| ku(x.key()));
             format!("conn={} fa={:?}", b(n.is_connected(&k)), fa)
         }
     };
 }
 
+/// payload instantiations: `weak` = WKey keys (colliding hashes, heap-owning), i64 / u32 values;
+/// `zst` = usize keys with zero-sized node and edge values `()`
+macro_rules! payloads {
+    (weak) => {
+        pub type KT = WKey;
+        pub type NT = i64;
+        pub type ET = u32;
+        fn kk(k: usize) -> KT { WKey::new(k) }
+        fn ku(k: &KT) -> usize { k.id }
+        fn nn(v: i64) -> NT { v }
+        fn nu(v: &NT) -> i64 { *v }
+        fn ee(v: u32) -> ET { v }
+        fn eu(v: &ET) -> u32 { *v }
+    };
+    (zst) => {
+        pub type KT = usize;
+        pub type NT = ();
+        pub type ET = ();
+        fn kk(k: usize) -> KT { k }
+        fn ku(k: &KT) -> usize { *k }
+        fn nn(_v: i64) -> NT {}
+        fn nu(_v: &NT) -> i64 { 0 }
+        fn ee(_v: u32) -> ET {}
+        fn eu(_v: &ET) -> u32 { 0 }
+    };
+}
 macro_rules! wk_mod {
-    ($m:ident, $fl:ident, $kind:ident) => {
+    ($m:ident, $fl:ident, $kind:ident, $pay:ident) => {
         pub mod $m {
             #![allow(unused, clippy::all)]
             use super::*;
             use gdsl::error::Error;
             use gdsl::$fl::*;
-            pub type N = Node<WKey, i64, u32>;
-            pub type G = Graph<WKey, i64, u32>;
+            payloads!($pay);
+            pub type N = Node<KT, NT, ET>;
+            pub type G = Graph<KT, NT, ET>;
             wk_kind!($kind);
 
             fn lists(nodes: &[N]) -> Lists {
-                nodes.iter().map(|n| { let (out, inn) = lists_of(n); NodeLists { key: n.key().id, out, inn } }).collect()
+                nodes.iter().map(|n| { let (out, inn) = lists_of(n); NodeLists { key: ku(n.key()), out, inn } }).collect()
             }
             fn dump(nodes: &[N]) -> String {
                 lists(nodes).iter().map(|n| if DIRECTED { format!("{}:{}/{}", n.key, fmt_list(&n.out), fmt_list(&n.inn)) } else { format!("{}:{}", n.key, fmt_list(&n.out)) }).collect::<Vec<_>>().join(" ")
             }
-            fn fill(out: &mut crate::exec_ext::SearchOut, edges: &[Edge<WKey, i64, u32>], nodes: &[N], len: usize, fnode: Option<&N>, lnode: Option<&N>, fe: Option<&Edge<WKey, i64, u32>>, le: Option<&Edge<WKey, i64, u32>>) {
-                let tri = |e: &Edge<WKey, i64, u32>| (e.source().key().id, e.target().key().id, *e.value());
+            fn fill(out: &mut crate::exec_ext::SearchOut, edges: &[Edge<KT, NT, ET>], nodes: &[N], len: usize, fnode: Option<&N>, lnode: Option<&N>, fe: Option<&Edge<KT, NT, ET>>, le: Option<&Edge<KT, NT, ET>>) {
+                let tri = |e: &Edge<KT, NT, ET>| (ku(e.source().key()), ku(e.target().key()), eu(e.value()));
                 out.path = Some(edges.iter().map(tri).collect());
-                out.path_nodes = nodes.iter().map(|n| n.key().id).collect();
+                out.path_nodes = nodes.iter().map(|n| ku(n.key())).collect();
                 out.path_len = len;
-                out.first_node = fnode.map(|n| n.key().id);
-                out.last_node = lnode.map(|n| n.key().id);
+                out.first_node = fnode.map(|n| ku(n.key()));
+                out.last_node = lnode.map(|n| ku(n.key()));
                 out.first_edge = fe.map(tri);
                 out.last_edge = le.map(tri);
                 out.views = "ok".into();
@@ -124,7 +151,7 @@ macro_rules! wk_mod {
                     let t: Vec<&str> = raw.split(' ').filter(|x| !x.starts_with('@') && !x.starts_with('#')).collect();
                     let p = |i: usize| -> usize { t[i].parse::<usize>().expect("number in program") };
                     if t[0] == "new" {
-                        nodes.push(N::new(WKey::new(p(1)), t[2].parse::<i64>().unwrap()));
+                        nodes.push(N::new(kk(p(1)), nn(t[2].parse::<i64>().unwrap())));
                         ctx.prog.push(raw.clone());
                         ctx.outs.push("ok".into());
                         continue;
@@ -138,9 +165,9 @@ macro_rules! wk_mod {
                         }
                         let c18 = ctx.has("c18");
                         let mut annot: Option<String> = None;
-                        let find = |k: usize| nodes.iter().find(|n| n.key().id == k).expect("unknown key").clone();
+                        let find = |k: usize| nodes.iter().find(|n| ku(n.key()) == k).expect("unknown key").clone();
                         let r: Result<String, ()> = catch_unwind(AssertUnwindSafe(|| {
-                            let order = |g: &G| -> String { format!("@order={}", g.iter().map(|(k, _)| k.id.to_string()).collect::<Vec<_>>().join(",")) };
+                            let order = |g: &G| -> String { format!("@order={}", g.iter().map(|(k, _)| ku(k).to_string()).collect::<Vec<_>>().join(",")) };
                             match t[0] {
                                 "g.new" | "g.newcap" => { graphs[i] = G::new(); refmaps[i].clear(); "ok".into() }
                                 "g.insert" => {
@@ -148,28 +175,28 @@ macro_rules! wk_mod {
                                     let r = graphs[i].insert(n.clone());
                                     let fresh = !refmaps[i].contains_key(&p(2));
                                     if c18 && r != fresh { ctx.fail(case, li, "c18", format!("(colliding hashes) insert({}) returned {r} but the key was {}", p(2), if fresh { "absent" } else { "present" })); }
-                                    refmaps[i].entry(p(2)).or_insert(*n.value());
+                                    refmaps[i].entry(p(2)).or_insert(nu(n.value()));
                                     format!("{r}")
                                 }
                                 "g.remove" => {
-                                    let r = graphs[i].remove(&WKey::new(p(2))).map(|n| (n.key().id, *n.value()));
+                                    let r = graphs[i].remove(&kk(p(2))).map(|n| (ku(n.key()), nu(n.value())));
                                     let e2 = refmaps[i].remove(&p(2)).map(|v| (p(2), v));
                                     if c18 && r != e2 { ctx.fail(case, li, "c18", format!("(colliding hashes) remove({}) returned {:?}, the map holds {:?}", p(2), r, e2)); }
                                     format!("{:?}", r.map(|x| x.0))
                                 }
                                 "g.get" => {
-                                    let r = graphs[i].get(&WKey::new(p(2))).map(|n| (n.key().id, *n.value()));
+                                    let r = graphs[i].get(&kk(p(2))).map(|n| (ku(n.key()), nu(n.value())));
                                     let e2 = refmaps[i].get(&p(2)).map(|v| (p(2), *v));
                                     if c18 && r != e2 { ctx.fail(case, li, "c18", format!("(colliding hashes) get({}) returned {:?}, the map holds {:?}", p(2), r, e2)); }
                                     match r { Some((k, v)) => format!("Some({k}:{v})"), None => "None".into() }
                                 }
-                                "g.contains" => format!("{}", graphs[i].contains(&WKey::new(p(2)))),
+                                "g.contains" => format!("{}", graphs[i].contains(&kk(p(2)))),
                                 "g.len" => format!("{}", graphs[i].len()),
                                 "g.is_empty" => format!("{}", graphs[i].is_empty()),
-                                "g.to_vec" => { annot = Some(order(&graphs[i])); fmt_keys(&graphs[i].to_vec().iter().map(|n| n.key().id).collect::<Vec<_>>()) }
+                                "g.to_vec" => { annot = Some(order(&graphs[i])); fmt_keys(&graphs[i].to_vec().iter().map(|n| ku(n.key())).collect::<Vec<_>>()) }
                                 "g.iter" => {
                                     annot = Some(order(&graphs[i]));
-                                    let r: Vec<(usize, i64)> = graphs[i].iter().map(|(k, n)| (k.id, *n.value())).collect();
+                                    let r: Vec<(usize, i64)> = graphs[i].iter().map(|(k, n)| (ku(k), nu(n.value()))).collect();
                                     let m: std::collections::BTreeMap<usize, i64> = r.iter().cloned().collect();
                                     if c18 && !(r.len() == m.len() && m == refmaps[i]) { ctx.fail(case, li, "c18", format!("(colliding hashes) iter() = {:?} but the map is {:?}", r, refmaps[i])); }
                                     format!("[{}]", r.iter().map(|(k, v)| format!("{k}:{v}")).collect::<Vec<_>>().join(","))
@@ -209,7 +236,7 @@ macro_rules! wk_mod {
                         continue;
                     }
                     let nodes_ref = &nodes;
-                    let node = |k: usize| -> N { nodes_ref.iter().find(|n| n.key().id == k).expect("unknown key").clone() };
+                    let node = |k: usize| -> N { nodes_ref.iter().find(|n| ku(n.key()) == k).expect("unknown key").clone() };
                     crate::hook::reset_thread();
                     let eop = match t[0] {
                         "connect" => Some(EdgeOp::Connect(p(1), p(2), p(3) as u32)),
@@ -222,16 +249,16 @@ macro_rules! wk_mod {
                     let mut oracle_in: Option<(crate::exec_ext::SearchSpec, crate::exec_ext::SearchOut)> = None;
                     let r: Result<String, ()> = catch_unwind(AssertUnwindSafe(|| match t[0] {
                         "connect" => {
-                            node(p(1)).connect(&node(p(2)), p(3) as u32);
+                            node(p(1)).connect(&node(p(2)), ee(p(3) as u32));
                             "ok".into()
                         }
-                        "try_connect" => match node(p(1)).try_connect(&node(p(2)), p(3) as u32) {
+                        "try_connect" => match node(p(1)).try_connect(&node(p(2)), ee(p(3) as u32)) {
                             Ok(()) => "ok".into(),
                             Err(Error::EdgeAlreadyExists) => "err exists".into(),
                             Err(Error::EdgeNotFound) => "err notfound".into(),
                         },
-                        "disconnect" => match node(p(1)).disconnect(&WKey::new(p(2))) {
-                            Ok(e) => format!("ok {e}"),
+                        "disconnect" => match node(p(1)).disconnect(&kk(p(2))) {
+                            Ok(e) => format!("ok {}", eu(&e)),
                             Err(Error::EdgeNotFound) => "err notfound".into(),
                             Err(Error::EdgeAlreadyExists) => "err exists".into(),
                         },
@@ -242,8 +269,8 @@ macro_rules! wk_mod {
                         "dump" => dump(nodes_ref),
                         "nv" => {
                             let n = node(p(1));
-                            let d: &i64 = &*n;
-                            format!("key={} val={} deref={}", n.key(), n.value(), d)
+                            let d: &NT = &*n;
+                            format!("key={} val={} deref={}", n.key(), nu(n.value()), nu(d))
                         }
                         "obs" => obs(&node(p(1))),
                         "q" => q(&node(p(1)), p(2)),
@@ -251,14 +278,14 @@ macro_rules! wk_mod {
                             // search <bfs|dfs|pfs-min|pfs-max> fwd <root> <target|-> none <node|path|cycle>
                             let spec = crate::exec_ext::parse_search(&t);
                             let root = node(p(3));
-                            let tk: Option<WKey> = t[4].parse::<usize>().ok().map(WKey::new);
+                            let tk: Option<KT> = t[4].parse::<usize>().ok().map(kk);
                             let mut out = crate::exec_ext::SearchOut::empty();
                             macro_rules! run {
                                 ($b:expr) => {{
                                     let b = $b;
                                     let mut b = match &tk { Some(k) => b.target(k), None => b };
                                     match t[6] {
-                                        "node" => out.node = b.search().map(|n| n.key().id),
+                                        "node" => out.node = b.search().map(|n| ku(n.key())),
                                         "path" => { if let Some(p) = b.search_path() { fill(&mut out, &p.to_vec_edges(), &p.to_vec_nodes(), p.len(), p.first_node(), p.last_node(), p.first_edge(), p.last_edge()); } }
                                         _ => { if let Some(p) = b.search_cycle() { fill(&mut out, &p.to_vec_edges(), &p.to_vec_nodes(), p.len(), p.first_node(), p.last_node(), p.first_edge(), p.last_edge()); } }
                                     }
@@ -308,7 +335,7 @@ macro_rules! wk_mod {
                             }
                             if let Some((spec, so)) = &oracle_in {
                                 if !ctx.quiet && !ctx.oracles.is_empty() {
-                                    let vals: Vec<(usize, i64)> = nodes.iter().map(|n| (n.key().id, *n.value())).collect();
+                                    let vals: Vec<(usize, i64)> = nodes.iter().map(|n| (ku(n.key()), nu(n.value()))).collect();
                                     for (name, msg) in crate::oracle_search::check(DIRECTED, &lists(&nodes), &vals, spec, so, &ctx.oracles) {
                                         ctx.fail(case, li, &name, format!("(keys with colliding hashes) {msg}"));
                                     }
@@ -322,7 +349,11 @@ macro_rules! wk_mod {
         }
     };
 }
-wk_mod!(wdi, digraph, di);
-wk_mod!(wsdi, sync_digraph, di);
-wk_mod!(wun, ungraph, un);
-wk_mod!(wsun, sync_ungraph, un);
+wk_mod!(wdi, digraph, di, weak);
+wk_mod!(wsdi, sync_digraph, di, weak);
+wk_mod!(wun, ungraph, un, weak);
+wk_mod!(wsun, sync_ungraph, un, weak);
+wk_mod!(zdi, digraph, di, zst);
+wk_mod!(zsdi, sync_digraph, di, zst);
+wk_mod!(zun, ungraph, un, zst);
+wk_mod!(zsun, sync_ungraph, un, zst);
